@@ -77,7 +77,14 @@ def gen_one(rng, i, tier):
     a1 = rng.choice([0.01, 0.05, 0.1, rng.uniform(0.001, 0.5), 10.0 ** (-rng.uniform(3, 25))])
     a2 = rng.choice([0.2, 0.5, 0.9, rng.uniform(a1, 0.999), 1 - 10.0 ** (-rng.uniform(3, 12))])
     return {"kind": kind, "shape": shape, "mats": mats, "alpha1": a1, "alpha2": max(a1, a2),
-            "via": rng.choice(["functions", "class"]), "alpha_kw": rng.random() < 0.5}
+            "via": rng.choice(["functions", "class"]), "alpha_kw": rng.random() < 0.5,
+            # the caller's ambient NumPy error state: a rate with a zero denominator is NaN by a MASKED division, which
+            # never evaluates 0/0 and therefore cannot raise whatever np.seterr says
+            "errstate": rng.random() < 0.25,
+            # integer matrices held in a small dtype (uint8 / int16 / int32 tallies): cells fit, row and column sums need not
+            "narrow": rng.choice(["u1", "u1", "i2", "i4", "u2"]) if (kind == "int" and rng.random() < 0.25) else None,
+            # one ConfusionMatrix object over time (in-place update of its public matrix, returned arrays modified)
+            "history": rng.random() < 0.2}
 
 
 def nontrivial(inp):
@@ -98,18 +105,33 @@ def build(inp) -> Case:
     inp = dict(inp)
     shape = list(inp["shape"])
     dt = int if inp["kind"] == "int" else float
+    if inp.get("narrow") and inp["kind"] == "int":
+        top_ = {"u1": 255, "i2": 32767, "u2": 65535, "i4": 2 ** 31 - 1}[inp["narrow"]]
+        biggest = max([abs(x) for m in inp["mats"] for x in m] + [1])
+        # rescaled into the dtype's range (largest cell near its top): the rates are those of the rescaled matrix, which
+        # is what the model is given
+        k_ = max(1, top_ // biggest) if biggest <= top_ else 0
+        if k_ >= 1:
+            inp["mats"] = [[int(x) * k_ for x in m] for m in inp["mats"]]
+            dt = {"u1": np.uint8, "i2": np.int16, "u2": np.uint16, "i4": np.int32}[inp["narrow"]]
     arr = np.array(inp["mats"], dtype=dt).reshape(shape + [2, 2])
     before = arr.copy()
     pre = []
     cmobj = ConfusionMatrix(matrix=arr, binary=True)
 
-    def get(name, *a):
+    def get0(name, *a):
         kw = {}
         if a and inp.get("alpha_kw"):  # alpha by keyword (the ConfusionMatrix wrappers forward **kwargs)
             a, kw = (), {"alpha": a[0]}
         if inp["via"] == "class":
             return getattr(cmobj, name)(*a, **kw)
         return getattr(metrics, name)(arr, *a, **kw)
+
+    def get(name, *a):
+        if inp.get("errstate"):
+            with np.errstate(all="raise"):
+                return get0(name, *a)
+        return get0(name, *a)
 
     obs = {}
     for name in RATE_NAMES + COUNT_NAMES:
@@ -163,6 +185,35 @@ def build(inp) -> Case:
             pre.append(Issue("PROPFAIL", "alias", f"{al} differs from {name}", f"metrics/alias/{al}"))
     if not np.array_equal(arr, before):
         pre.append(Issue("PROPFAIL", "mutation", "input matrix mutated", "metrics/mutation"))
+    if inp.get("history") and arr.size:
+        # a private object: metrics read, a returned array scaled in place, the matrix updated in place
+        # (`cm.matrix += batch`), metrics read again - they must describe the matrix the object holds NOW
+        own = ConfusionMatrix(matrix=np.array(arr, copy=True), binary=True)
+        names = ["tpr", "fnr", "tnr", "ppv", "tp", "pop"]
+        first = {nm: common.call(getattr(own, nm)) for nm in names}
+        for nm in ("tpr", "tp"):
+            r_ = first[nm]
+            if r_[0] == "ok" and isinstance(r_[1], np.ndarray) and r_[1].flags.writeable and r_[1].size:
+                try:
+                    r_[1][...] = 7
+                except Exception:
+                    pass
+        batch = (np.arange(arr.size).reshape(arr.shape) % 3).astype(arr.dtype)
+        try:
+            own.matrix += batch
+            fresh = ConfusionMatrix(matrix=np.array(own.matrix, copy=True), binary=True)
+            for nm in names:
+                a_, b_ = common.call(getattr(own, nm)), common.call(getattr(fresh, nm))
+                same_ = a_[0] == b_[0] and (a_[0] == "exc" or np.array_equal(np.asarray(a_[1]), np.asarray(b_[1]), equal_nan=True))
+                if not same_:
+                    pre.append(Issue("PROPFAIL", "definitions", f"after `cm.matrix += batch` on an object whose metrics had been read "
+                                     f"(and whose returned arrays were modified by the caller), {nm}() = "
+                                     f"{np.asarray(a_[1]).tolist() if a_[0] == 'ok' else a_[1:]} but a fresh object holding the same "
+                                     f"matrix {np.asarray(own.matrix).reshape(-1).tolist()[:12]} gives "
+                                     f"{np.asarray(b_[1]).tolist() if b_[0] == 'ok' else b_[1:]}", "metrics/history/in-place-update"))
+                    break
+        except Exception:
+            pass
     eps = Fraction(0) if inp["kind"] in ("int",) else Fraction(1, 10**9)
     scale = max([1.0] + [abs(x) for m in inp["mats"] for x in m])
     epsd = eps * Fraction(scale) * 4
@@ -185,7 +236,8 @@ def build(inp) -> Case:
                           ci1="[" + ",".join(_orat(float(x)) for x in c1) + "]",
                           ci2="[" + ",".join(_orat(float(x)) for x in c2) + "]"))
     inp["_evals"] = max(1, nmat) * (len(RATE_NAMES) + len(COUNT_NAMES) + 8)
-    tags = [inp["kind"], f"ndim={len(shape)}", inp["via"]]
+    tags = [inp["kind"] + ("/" + str(arr.dtype) if inp.get("narrow") else ""), f"ndim={len(shape)}", inp["via"]] + (["errstate=raise"] if inp.get("errstate") else []) + (
+        ["history"] if inp.get("history") else [])
     if nmat == 0:
         tags.append("empty-stack")
     if any(0 in (m[0] + m[1], m[2] + m[3], m[0] + m[2], m[1] + m[3]) for m in inp["mats"]):
